@@ -190,6 +190,7 @@ enum BatchTracker {
 }
 
 fn visual_opts() -> VisualSortOptions {
+    let (oau, oac) = *OWN_AREA.lock().unwrap();
     VisualSortOptions::default()
         .max_idle_epochs(3)
         .kept_history_length(3)
@@ -201,8 +202,8 @@ fn visual_opts() -> VisualSortOptions {
         .visual_minimal_quality_collect(0.7)
         .visual_max_observations(3)
         .visual_min_votes(1)
-        .visual_minimal_own_area_percentage_use(OWN_AREA.lock().unwrap().0 as f32 / 1000.0)
-        .visual_minimal_own_area_percentage_collect(OWN_AREA.lock().unwrap().1 as f32 / 1000.0)
+        .visual_minimal_own_area_percentage_use(oau as f32 / 1000.0)
+        .visual_minimal_own_area_percentage_collect(oac as f32 / 1000.0)
 }
 
 fn new_batch_tracker(kind: &str, d: usize, v: usize) -> BatchTracker {
@@ -451,6 +452,7 @@ fn run_case(kind: &str, d: usize, v: usize, mode: &str, dseed: u64, hist: &[Batc
             .join("/"),
         None => "PANIC".into(),
     };
+    let (oau, oac) = *OWN_AREA.lock().unwrap();
     println!(
         "run kind={} d={} v={} mode={} dseed={} oau={} oac={} hist={} batch={} simple={} log={} status={}",
         kind,
@@ -458,8 +460,8 @@ fn run_case(kind: &str, d: usize, v: usize, mode: &str, dseed: u64, hist: &[Batc
         v,
         mode,
         dseed,
-        OWN_AREA.lock().unwrap().0,
-        OWN_AREA.lock().unwrap().1,
+        oau,
+        oac,
         enc_hist(hist),
         batch_s,
         simple_s,
@@ -640,8 +642,9 @@ fn gen_large(rng: &mut Rng, visual: bool, nscenes: usize) -> Vec<Batch> {
 ///              (A is not detected): Z joins A only if X's feature was collected in spite of the collect-gate.
 /// Box edges never share a coordinate line (the geo dependency's boolean ops are fragile there, C15).
 fn gen_occlusion(rng: &mut Rng) -> Vec<Batch> {
-    let nscenes = 1 + rng.below(3) as usize;
-    let variants: Vec<bool> = (0..nscenes).map(|_| rng.chance(1, 2)).collect(); // true = U, false = C
+    // every history contains both variants: scene 0 is U, scene 1 is C, a third scene is either
+    let nscenes = 2 + rng.below(2) as usize;
+    let variants: Vec<bool> = (0..nscenes).map(|i| if i == 0 { true } else if i == 1 { false } else { rng.chance(1, 2) }).collect(); // true = U, false = C
     let base: Vec<(f32, f32)> = (0..nscenes).map(|_| (rng.dyadic(0, 40, 2), rng.dyadic(0, 40, 2))).collect();
     let feat = |rng: &mut Rng, x: f32, y: f32| Some(vec![x + rng.dyadic(0, 4, 5), y + rng.dyadic(0, 4, 5)]);
     let mk = |x: f32, y: f32, h: f32, f: Option<Vec<f32>>| Det { x, y, aspect: 0.625, h, conf: 1.0, custom: None, q: Some(0.9), feat: f };
@@ -725,7 +728,7 @@ fn gen(seed: u64, n: usize, tier: &str) {
         }
     }
     // visual pair with own-area thresholds: use only / collect only / both / none
-    let reps = if thorough { 6 } else { 2 };
+    let reps = if thorough { 8 } else { 3 };
     for rep in 0..reps {
         for (u, c) in [(1u32, 0u32), (0, 1), (1, 1), (0, 0)] {
             let val = |on: u32, rng: &mut Rng| if on == 1 { 300 + 125 * rng.below(5) as u32 } else { 0 };
